@@ -12,25 +12,39 @@
 (*            one ingredient: the replay that reveals an implementation    *)
 (*            which leaves exactly that ingredient out (HashMC, DROPs).    *)
 (*                                                                         *)
-(* Dimensions: 12 graph shapes (static splitting, static chain of shared   *)
+(* Dimensions: 18 graph shapes (static splitting, static chain of shared   *)
 (* chunks, dynamic-import chain, cycles of 2 and 3 chunks, file / copy /   *)
-(* dataurl assets, a copied file that is an entry point itself, CSS entry  *)
-(* with url(), CSS bundle of a JS entry);                                  *)
+(* dataurl assets, a copied file that is an entry point itself (imported   *)
+(* or not), two assets in one chunk, splitting + file asset + copied entry *)
+(* point in one build, CSS entry with url(), CSS bundle of a JS entry, an  *)
+(* outfile build of a JS entry / of a copied file, modules and an asset    *)
+(* from a plug-in namespace);                                              *)
 (* options: source map mode (5) x sourcesContent x sourceRoot, legal       *)
-(* comment mode (5), public path, [hash] in the entry names, minify;       *)
+(* comment mode (5), public path, minify, and THE TEMPLATE DIMENSION:      *)
+(* [hash] in the entry / chunk / asset name template independently (he,    *)
+(* hc, ha: all 8 combinations) x the style of the templates (tstyle:       *)
+(* plain, [dir] with a nested entry directory, [ext] with the hash in      *)
+(* front of the name, out-extension);                                      *)
 (* edits: 7 kinds of single-point edits of an input file (code, comment,   *)
 (* blank line, indentation, legal comment, local identifier, input source  *)
-(* map), asset bytes, added import, and 19 kinds of option-only edits.     *)
+(* map), bytes of the first / second asset, added import, and 19 kinds of  *)
+(* option-only edits.                                                      *)
 (*                                                                         *)
-(* The space is cut into NSlices slices by a linear residue over all       *)
-(* dimension indices; a run enumerates the slices in Slices (the quick     *)
-(* tier a seeded few, the thorough tier more).                             *)
+(* Two families of scenarios:                                              *)
+(*  G  the whole space, cut into NSlices slices by a linear residue over   *)
+(*     all dimension indices; a run enumerates the slices in Slices (the   *)
+(*     quick tier one seeded slice, the thorough tier more);               *)
+(*  T  the template family: EVERY (shape, target, content / template edit, *)
+(*     he, hc, ha) combination, i.e. every output kind under every         *)
+(*     agreement / disagreement of the three templates with an edit of     *)
+(*     each kind of file; the remaining options are picked by a seeded     *)
+(*     mix of the indices (tstyle too, unless TStyleEnum).                 *)
 (***************************************************************************)
 EXTENDS Integers, Sequences, FiniteSets, TLC, Json
 
 H == INSTANCE Hash
 
-CONSTANTS SMs, Legals, Minifies, MIH, NSlices, KInv, Slices, Salt
+CONSTANTS SMs, Legals, Minifies, MIH, NSlices, KInv, Slices, Salt, TStyleEnum
 
 \* chunk numbering: see ChunkOf
 Shape(s) ==
@@ -47,11 +61,30 @@ Shape(s) ==
     [] s = "dataurl"    -> [n |-> 1, imp |-> (1 :> {}), aref |-> (1 :> {}), css |-> {}, entries |-> {1}]
     [] s = "cssurl"     -> [n |-> 1, imp |-> (1 :> {}), aref |-> (1 :> {"x"}), css |-> {1}, entries |-> {1}]
     [] s = "jscss"      -> [n |-> 2, imp |-> (1 :> {} @@ 2 :> {}), aref |-> (1 :> {} @@ 2 :> {"x"}), css |-> {2}, entries |-> {1, 2}]
+    \* a copied entry point "d" that no chunk refers to
+    [] s = "copyonly"   -> [n |-> 1, imp |-> (1 :> {}), aref |-> (1 :> {}), css |-> {}, entries |-> {1}]
+    [] s = "twoassets"  -> [n |-> 1, imp |-> (1 :> {}), aref |-> (1 :> {"x", "y"}), css |-> {}, entries |-> {1}]
+    \* all three templates in one build: entry points, a shared chunk with a file-loader asset, a copied entry point
+    [] s = "mixed"      -> [n |-> 3, imp |-> (1 :> {3} @@ 2 :> {3} @@ 3 :> {}), aref |-> (1 :> {} @@ 2 :> {} @@ 3 :> {"x"}), css |-> {}, entries |-> {1, 2}]
+    \* outfile builds (no splitting): the entry template is applied to the base name of the outfile
+    [] s = "outfile"    -> [n |-> 1, imp |-> (1 :> {}), aref |-> (1 :> {"x"}), css |-> {}, entries |-> {1}]
+    [] s = "outfilecopy" -> [n |-> 0, imp |-> <<>>, aref |-> <<>>, css |-> {}, entries |-> {}]
+    \* modules and an asset that a plug-in provides in a non-file namespace
+    [] s = "plugin"     -> [n |-> 1, imp |-> (1 :> {}), aref |-> (1 :> {"x"}), css |-> {}, entries |-> {1}]
+\* the assets of a shape, and those that are entry points themselves (copy loader: named by the entry template)
+AssetsOf(s) == CASE s \in {"splitasset", "fileasset", "copy", "copyentry", "cssurl", "jscss", "outfile", "plugin"} -> {"x"}
+                 [] s = "twoassets" -> {"x", "y"}
+                 [] s = "mixed" -> {"x", "d"}
+                 [] s \in {"copyonly", "outfilecopy"} -> {"d"}
+                 [] OTHER -> {}
+EAssetsOf(s) == IF s = "copyentry" THEN {"x"} ELSE AssetsOf(s) \cap {"d"}
 
-ShapeSeq == <<"split", "splitasset", "statchain", "dyncycle", "dynchain", "cycle3", "fileasset", "copy", "dataurl", "cssurl", "jscss", "copyentry">>
-TargetSeq == <<"a", "b", "c", "shared", "m2", "css">>
+ShapeSeq == <<"split", "splitasset", "statchain", "dyncycle", "dynchain", "cycle3", "fileasset", "copy", "dataurl", "cssurl", "jscss", "copyentry",
+              "copyonly", "twoassets", "mixed", "outfile", "outfilecopy", "plugin">>
+TargetSeq == <<"a", "b", "c", "shared", "m2", "css", "v">>
+TStyleSeq == <<"plain", "dir", "ext", "outext">>
 InputEdits == <<"code", "comment", "blank", "indent", "legal", "ident", "inmap">>
-OtherEdits == <<"asset", "importadd">>
+OtherEdits == <<"asset", "importadd", "asset2">>
 OptionEdits == <<"pp", "ppon", "entrynames", "chunknames", "assetnames", "outext", "banner", "footer", "define", "minws", "minid", "minsyn",
                  "target", "charset", "legalmode", "smmode", "sctoggle", "sroot", "keepnames">>
 EditSeq == InputEdits \o OtherEdits \o OptionEdits
@@ -60,8 +93,11 @@ LegalSeq == <<"none", "inline", "eof", "linked", "external">>
 Range(q) == {q[k] : k \in 1..Len(q)}
 Idx(q, x) == CHOOSE k \in 1..Len(q) : q[k] = x
 
-HasAsset(s) == s \in {"splitasset", "fileasset", "cssurl", "copy", "jscss", "copyentry"}
-Targets(s) == CASE s \in {"split", "splitasset"} -> {"a", "shared"}
+HasAsset(s) == "x" \in AssetsOf(s)
+\* the second asset of a shape
+Asset2(s) == CASE s = "twoassets" -> {"y"} [] s \in {"mixed", "copyonly", "outfilecopy"} -> {"d"} [] OTHER -> {}
+Targets(s) == CASE s \in {"split", "splitasset", "mixed"} -> {"a", "shared"}
+                [] s = "plugin" -> {"a", "v"}
                 [] s = "statchain" -> {"a", "shared", "m2"}
                 [] s = "dyncycle" -> {"a", "b"}
                 [] s = "dynchain" -> {"a", "b", "c"}
@@ -74,6 +110,7 @@ ChunkOf(sh, t) == CASE t = "a" -> 1 [] t = "b" -> 2
                     [] t = "shared" -> (IF sh = "statchain" THEN 4 ELSE 3)
                     [] t = "m2" -> 5
                     [] t = "css" -> 2
+                    [] t = "v" -> 1
 IsCSSTarget(sh, t) == (sh = "cssurl") \/ (sh = "jscss" /\ t = "css")
 
 \* scenario record: shape, target, edit, to (the new mode of a mode edit, "-" otherwise), and the options
@@ -89,27 +126,36 @@ Sensible(s) ==
   /\ (s.sm = "none") => (~s.sc /\ ~s.sroot)                    \* no source map: the two source map options are irrelevant
   /\ (isInput /\ IsCSSTarget(s.shape, s.target)) => s.edit \in {"code", "comment", "blank", "legal"}
   /\ (s.edit = "asset") => (HasAsset(s.shape) \/ s.shape = "dataurl")
-  /\ (s.edit = "importadd") => s.shape \in {"split", "splitasset", "statchain"}
+  /\ (s.edit = "asset2") => Asset2(s.shape) # {}
+  /\ (s.edit = "importadd") => s.shape \in {"split", "splitasset", "statchain", "mixed"}
+  /\ (s.shape = "statchain") => s.hc                          \* two shared chunks: without [hash] both would be chunks/chunk.js
+  /\ (s.shape = "outfilecopy") => s.edit \in {"asset2", "entrynames"}   \* the only input is the copied file
+  /\ (s.tstyle = "outext") => s.edit # "outext"
+  /\ (s.target = "v") => s.edit # "inmap"
   /\ (s.edit = "pp") => s.pp
   /\ (s.edit = "ppon") => ~s.pp
   /\ (s.edit = "chunknames") => Shape(s.shape).n > Cardinality(Shape(s.shape).entries)
-  /\ (s.edit = "assetnames") => (HasAsset(s.shape) /\ s.shape # "copyentry")   \* a copied entry point is named by the entry template
+  /\ (s.edit = "assetnames") => (AssetsOf(s.shape) \ EAssetsOf(s.shape)) # {}   \* a copied entry point is named by the entry template
   /\ (s.edit \in {"define", "keepnames", "minid"}) => s.shape # "cssurl"
   /\ (s.edit \in {"sctoggle", "sroot"}) => s.sm # "none"
 
 World(s) ==
   LET sh == Shape(s.shape)
       C == 1..sh.n
-  IN [ chunks |-> C, assets |-> {"x"}, names |-> <<>>, imp |-> sh.imp, aref |-> sh.aref,
-       hashedC |-> [c \in C |-> IF c \in sh.entries THEN s.names = "allhash" ELSE TRUE],
-       hashedA |-> ((s.shape = "copyentry") => (s.names = "allhash")), pp |-> s.pp, sm |-> s.sm, legal |-> s.legal, lih |-> TRUE, mih |-> MIH, drop |-> {},
+      A == AssetsOf(s.shape)
+  IN [ chunks |-> C, assets |-> A, names |-> <<>>, imp |-> sh.imp, aref |-> sh.aref,
+       th |-> [t \in H!Templates |-> CASE t = "entry" -> s.he [] t = "chunk" -> s.hc [] OTHER -> s.ha],
+       tplC |-> [c \in C |-> IF c \in sh.entries THEN "entry" ELSE "chunk"],
+       tplA |-> [a \in A |-> IF a \in EAssetsOf(s.shape) THEN "entry" ELSE "asset"],
+       pp |-> s.pp, sm |-> s.sm, legal |-> s.legal, lih |-> TRUE, mih |-> MIH, drop |-> {},
        css |-> [c \in C |-> c \in sh.css],
        fake |-> [c \in C |-> c = 1],
        code |-> [c \in C |-> 0], parts |-> [c \in C |-> 0], tmpl |-> [c \in C |-> 0],
        smP |-> [c \in C |-> 0], smM |-> [c \in C |-> 0], smS |-> [c \in C |-> 0],
-       legalv |-> [c \in C |-> 1], ppv |-> 0, atpl |-> 0, abytes |-> [a \in {"x"} |-> 0] ]
+       legalv |-> [c \in C |-> 1], ppv |-> 0, atpl |-> [a \in A |-> 0], abytes |-> [a \in A |-> 0] ]
 
-RECURSIVE ForAll(_, _)
+RECURSIVE ForAll(_, _), ForAllA(_, _)
+ForAllA(k, as) == IF as = <<>> THEN <<>> ELSE <<[k |-> k, a |-> Head(as)]>> \o ForAllA(k, Tail(as))
 \* one atom edit of kind k for every chunk of the sequence cs
 ForAll(k, cs) == IF cs = <<>> THEN <<>> ELSE <<[k |-> k, c |-> Head(cs)]>> \o ForAll(k, Tail(cs))
 
@@ -134,9 +180,10 @@ Atoms(s) ==
        [] s.edit = "importadd" -> <<[k |-> "import", c |-> 1, d |-> 2], [k |-> "smM", c |-> 1]>> \o (IF s.sc THEN <<[k |-> "smP", c |-> 1]>> ELSE <<>>)
        [] s.edit = "pp"        -> <<[k |-> "pp"]>>
        [] s.edit = "ppon"      -> <<[k |-> "ppon"]>>
-       [] s.edit = "entrynames" -> ForAll("tmpl", ent) \o (IF s.shape = "copyentry" THEN <<[k |-> "atpl"]>> ELSE <<>>)
+       [] s.edit = "asset2"    -> ForAllA("asset", H!SeqOfStrSet(Asset2(s.shape)))
+       [] s.edit = "entrynames" -> ForAll("tmpl", ent) \o ForAllA("atpl", H!SeqOfStrSet(EAssetsOf(s.shape)))
        [] s.edit = "chunknames" -> ForAll("tmpl", nonent)
-       [] s.edit = "assetnames" -> <<[k |-> "atpl"]>>
+       [] s.edit = "assetnames" -> ForAllA("atpl", H!SeqOfStrSet(AssetsOf(s.shape) \ EAssetsOf(s.shape)))
        [] s.edit = "outext"    -> ForAll("tmpl", all)
        [] s.edit \in {"banner", "footer", "minws", "minsyn"} -> ForAll("code", all) \o ForAll("smM", all)
        [] s.edit \in {"minid", "keepnames"} -> ForAll("code", all) \o ForAll("smS", all)
@@ -157,23 +204,33 @@ IngredientOf(w, e) ==
     [] OTHER -> {}
 \* "imports": the edited chunk is imported by another chunk, whose name has to change as well
 HasImporter(w, c) == \E d \in w.chunks : d # c /\ c \in w.imp[d]
+\* the options make the templates DISAGREE for some output: an entry chunk or a
+\* copied entry point is named by the entry template with [hash] while the
+\* default template of its kind (chunk / asset template) has none: what reveals
+\* a hash decision taken from the wrong template (HashMC, mutant "owntpl")
+Disagree(s) == \/ (s.he /\ ~s.hc /\ Shape(s.shape).entries # {})
+               \/ (s.he /\ ~s.ha /\ EAssetsOf(s.shape) # {})
 Touch(s) == LET w == World(s) a == Atoms(s)
-            IN UNION {IngredientOf(w, a[k]) \cup (IF "c" \in DOMAIN a[k] /\ IngredientOf(w, a[k]) # {} /\ HasImporter(w, a[k].c) THEN {"imports"} ELSE {}) : k \in 1..Len(a)}
+            IN (IF Disagree(s) THEN {"owntpl"} ELSE {}) \cup UNION {IngredientOf(w, a[k]) \cup (IF "c" \in DOMAIN a[k] /\ IngredientOf(w, a[k]) # {} /\ HasImporter(w, a[k].c) THEN {"imports"} ELSE {}) : k \in 1..Len(a)}
 
 Expect(s) == H!Failing(World(s), H!ApplySeq(World(s), Atoms(s)))
 
-\* the slice of a scenario: a linear residue over the indices of all
-\* dimensions
+\* the slice of a scenario: the mixed-radix index of all dimensions but the
+\* edit (shifted by the seed) is scattered over the residues modulo NSlices,
+\* and the edit index enters linearly (so that it can be solved for, below)
 B(b) == IF b THEN 1 ELSE 0
-OptRes(x) == Salt + 17 * Idx(SMSeq, x.sm) + 19 * Idx(LegalSeq, x.legal) + 23 * B(x.pp) + 29 * B(x.names = "allhash") + 31 * B(x.minify)
-             + 37 * B(x.sc) + 41 * B(x.sroot)
-TripleRes(tr) == 7 * tr[1] + 11 * tr[2] + 13 * tr[3]
-ToRes(ed, to) == IF to = "-" THEN 0 ELSE 43 * (IF ed = "smmode" THEN Idx(SMSeq, to) ELSE Idx(LegalSeq, to))
-SliceOf(s) == (OptRes(s) + TripleRes(<<Idx(ShapeSeq, s.shape), Idx(TargetSeq, s.target), Idx(EditSeq, s.edit)>>) + ToRes(s.edit, s.to)) % NSlices
+OptIdx(x) == (((((((((Idx(SMSeq, x.sm) - 1) * 5 + Idx(LegalSeq, x.legal) - 1) * 2 + B(x.pp)) * 2 + B(x.he)) * 2 + B(x.hc)) * 2 + B(x.ha)) * 2 + B(x.minify)) * 2
+               + B(x.sc)) * 2 + B(x.sroot)) * 4 + Idx(TStyleSeq, x.tstyle) - 1
+ToIdx(ed, to) == IF to = "-" THEN 0 ELSE (IF ed = "smmode" THEN Idx(SMSeq, to) ELSE Idx(LegalSeq, to))
+BaseIdx(x, i, j, ti) == ((OptIdx(x) * Len(ShapeSeq) + (i - 1)) * Len(TargetSeq) + (j - 1)) * 6 + ti
+\* (all intermediate values stay below 2^31)
+Scat(b) == (((b + Salt) % NSlices) * 2749 + ((b + Salt) \div NSlices) * 3571) % NSlices
+SliceOfQ(x, i, j, k, ti) == (Scat(BaseIdx(x, i, j, ti)) + 13 * k) % NSlices
+SliceOf(s) == SliceOfQ(s, Idx(ShapeSeq, s.shape), Idx(TargetSeq, s.target), Idx(EditSeq, s.edit), ToIdx(s.edit, s.to))
 
 \* the targets of each shape as indices into TargetSeq (literal, so that the
 \* enumeration below is cheap); checked against Targets
-TargetIdxs == <<{1, 4}, {1, 4}, {1, 4, 5}, {1, 2}, {1, 2, 3}, {1, 3}, {1}, {1}, {1}, {1}, {1, 6}, {1}>>
+TargetIdxs == <<{1, 4}, {1, 4}, {1, 4, 5}, {1, 2}, {1, 2, 3}, {1, 3}, {1}, {1}, {1}, {1}, {1, 6}, {1}, {1}, {1}, {1, 4}, {1}, {1}, {1, 7}>>
 ASSUME \A i \in 1..Len(ShapeSeq) : {TargetSeq[j] : j \in TargetIdxs[i]} = Targets(ShapeSeq[i])
 NInput == Len(InputEdits)
 NEdits == Len(EditSeq)
@@ -182,31 +239,52 @@ NEdits == Len(EditSeq)
 \* one step, so that TLC's workers share the evaluation of the prediction;
 \* the prediction is evaluated inside the action (where TLC caches) and kept
 \* in the state
-OptRecs == [pp : BOOLEAN, names : {"allhash", "entryplain"}, sm : SMs, sc : BOOLEAN, sroot : BOOLEAN, legal : Legals, minify : Minifies]
+OptRecs == [fam : {"G"}, pp : BOOLEAN, he : BOOLEAN, hc : BOOLEAN, ha : BOOLEAN, tstyle : Range(TStyleSeq), sm : SMs, sc : BOOLEAN, sroot : BOOLEAN, legal : Legals, minify : Minifies]
+\* family T: the three template bits (and the style, if TStyleEnum) are chosen in the initial state, the other options are derived in Next
+TOptRecs == [fam : {"T"}, pp : {FALSE}, he : BOOLEAN, hc : BOOLEAN, ha : BOOLEAN, tstyle : (IF TStyleEnum THEN Range(TStyleSeq) ELSE {"plain"}),
+             sm : {"none"}, sc : {FALSE}, sroot : {FALSE}, legal : {"none"}, minify : {FALSE}]
+\* the edits of family T: content edits of every kind of file and the template edits
+TEdits == {"code", "comment", "legal", "asset", "asset2", "importadd", "entrynames", "chunknames", "assetnames", "outext"}
+TEditIdx == {k \in 1..Len(EditSeq) : EditSeq[k] \in TEdits}
+SMQ == H!SeqOfStrSet(SMs)
+LegalQ == H!SeqOfStrSet(Legals)
+MinQ == H!SortedSeq({B(m) : m \in Minifies})
+Derived(x, i, j, k) ==
+  LET raw == Salt + (((((B(x.he) * 2 + B(x.hc)) * 2 + B(x.ha)) * 4 + Idx(TStyleSeq, x.tstyle) - 1) * Len(ShapeSeq) + (i - 1)) * Len(TargetSeq) + (j - 1)) * 32 + k
+      mix == ((raw % 30011) * 30029 + (raw \div 30011) * 7919) % 1000003
+      sm == SMQ[(mix % Len(SMQ)) + 1]
+  IN [fam |-> "T", he |-> x.he, hc |-> x.hc, ha |-> x.ha,
+      sm |-> sm, legal |-> LegalQ[((mix \div 5) % Len(LegalQ)) + 1], pp |-> (mix \div 25) % 2 = 1,
+      minify |-> MinQ[((mix \div 50) % Len(MinQ)) + 1] = 1,
+      sc |-> (sm # "none" /\ (mix \div 100) % 2 = 1), sroot |-> (sm # "none" /\ (mix \div 200) % 2 = 1),
+      tstyle |-> IF TStyleEnum THEN x.tstyle ELSE TStyleSeq[((mix \div 400) % Len(TStyleSeq)) + 1]]
 ToSet(ed, x) == IF ed = "smmode" THEN SMs \ {x.sm} ELSE IF ed = "legalmode" THEN Legals \ {x.legal} ELSE {"-"}
 VARIABLES o, sc, ex
 vars == <<o, sc, ex>>
 NoScen == [shape |-> "none"]
-Init == o \in {x \in OptRecs : (x.sm = "none") => (~x.sc /\ ~x.sroot)} /\ sc = NoScen /\ ex = {}
+Init == o \in ({x \in OptRecs : (x.sm = "none") => (~x.sc /\ ~x.sroot)} \cup TOptRecs) /\ sc = NoScen /\ ex = {}
 \* Enumerating a slice without scanning the whole space: 13 (the multiplier of
-\* the edit index) is invertible modulo NSlices, so for a shape, a target and a
-\* slice there is exactly one edit index with the right residue.
+\* the edit index) is invertible modulo NSlices, so for the options, a shape, a
+\* target and a slice there is exactly one edit index with the right residue
+\* (a valid one for about NEdits out of NSlices combinations).
 ASSUME (13 * KInv) % NSlices = 1 /\ NEdits < NSlices
 PickK(base, s) == (KInv * ((s + NSlices - (base % NSlices)) % NSlices)) % NSlices
 ModeEdits == {"smmode", "legalmode"}
 ModeIdx == {Idx(EditSeq, "smmode"), Idx(EditSeq, "legalmode")}
-Plain(r) == UNION {UNION {{<<i, j, PickK(r + 7 * i + 11 * j, s), "-">> : s \in Slices} : j \in TargetIdxs[i]} : i \in 1..Len(ShapeSeq)}
+Plain(x) == UNION {UNION {{<<i, j, PickK(Scat(BaseIdx(x, i, j, 0)), s), "-">> : s \in Slices} : j \in TargetIdxs[i]} : i \in 1..Len(ShapeSeq)}
 ValidPlain(q) == q[3] \in 1..(IF q[2] = 1 THEN NEdits ELSE NInput) /\ EditSeq[q[3]] \notin ModeEdits
-Modes(x, r) == UNION {UNION {{<<i, 1, k, to>> : to \in {t \in ToSet(EditSeq[k], x) : (r + 7 * i + 11 + 13 * k + ToRes(EditSeq[k], t)) % NSlices \in Slices}}
+Modes(x) == UNION {UNION {{<<i, 1, k, to>> : to \in {t \in ToSet(EditSeq[k], x) : SliceOfQ(x, i, 1, k, ToIdx(EditSeq[k], t)) \in Slices}}
                               : k \in ModeIdx} : i \in 1..Len(ShapeSeq)}
-Next == /\ sc = NoScen
-        /\ LET r == OptRes(o)
-           IN \E q \in {x \in Plain(r) : ValidPlain(x)} \cup Modes(o, r) :
+NextG == \E q \in {x \in Plain(o) : ValidPlain(x)} \cup Modes(o) :
                 /\ sc' = [shape |-> ShapeSeq[q[1]], target |-> TargetSeq[q[2]], edit |-> EditSeq[q[3]], to |-> q[4]] @@ o
                 /\ SliceOf(sc') \in Slices
-                /\ Sensible(sc')
-                /\ LET w1 == World(sc')
-                   IN ex' = [expect |-> H!Failing(w1, H!ApplySeq(w1, Atoms(sc'))), touch |-> Touch(sc')]
+NextT == \E i \in 1..Len(ShapeSeq) : \E j \in TargetIdxs[i], k \in TEditIdx :
+            sc' = [shape |-> ShapeSeq[i], target |-> TargetSeq[j], edit |-> EditSeq[k], to |-> "-"] @@ Derived(o, i, j, k)
+Next == /\ sc = NoScen
+        /\ IF o.fam = "G" THEN NextG ELSE NextT
+        /\ Sensible(sc')
+        /\ LET w1 == World(sc')
+           IN ex' = [expect |-> H!Failing(w1, H!ApplySeq(w1, Atoms(sc'))), touch |-> Touch(sc')]
         /\ o' = o
 Spec == Init /\ [][Next]_vars
 
@@ -215,10 +293,15 @@ Export == sc = NoScen \/ PrintT(<<"CASE", ToJson(sc @@ ex)>>)
 \* sanity of the scenario space: the class of the missed seed (a comment-only
 \* edit under inline source maps isolates the source map prefix) and the class
 \* of the mode finding are in it
-ASSUME LET s == [shape |-> "split", target |-> "shared", edit |-> "comment", to |-> "-", pp |-> FALSE, names |-> "allhash",
-                 sm |-> "inline", sc |-> TRUE, sroot |-> FALSE, legal |-> "inline", minify |-> FALSE]
+TAll == [fam |-> "G", he |-> TRUE, hc |-> TRUE, ha |-> TRUE, tstyle |-> "plain"]
+ASSUME LET s == [shape |-> "split", target |-> "shared", edit |-> "comment", to |-> "-", pp |-> FALSE,
+                 sm |-> "inline", sc |-> TRUE, sroot |-> FALSE, legal |-> "inline", minify |-> FALSE] @@ TAll
        IN Sensible(s) /\ Touch(s) = {"smP", "imports"}
-ASSUME LET s == [shape |-> "split", target |-> "a", edit |-> "smmode", to |-> "linked", pp |-> FALSE, names |-> "allhash",
-                 sm |-> "external", sc |-> TRUE, sroot |-> FALSE, legal |-> "inline", minify |-> FALSE]
+ASSUME LET s == [shape |-> "split", target |-> "a", edit |-> "smmode", to |-> "linked", pp |-> FALSE,
+                 sm |-> "external", sc |-> TRUE, sroot |-> FALSE, legal |-> "inline", minify |-> FALSE] @@ TAll
        IN Sensible(s) /\ Touch(s) = {"modes"} /\ (MIH \/ "SamePathSameBytes" \in Expect(s))
+\* the class of the hoisted template test: a copied entry point under entry names with [hash] and asset names without, its bytes edited
+ASSUME LET s == [shape |-> "copyonly", target |-> "a", edit |-> "asset2", to |-> "-", pp |-> FALSE, fam |-> "T", he |-> TRUE, hc |-> TRUE, ha |-> FALSE, tstyle |-> "dir",
+                 sm |-> "none", sc |-> FALSE, sroot |-> FALSE, legal |-> "none", minify |-> FALSE]
+       IN Sensible(s) /\ Touch(s) = {"owntpl", "assetpath"} /\ Expect(s) = {}
 =============================================================================
